@@ -1,17 +1,19 @@
 (** C13 -- property theorems only.
     Model: coq/C13/InconIO.v ([write], [read]: t2incon.write / t2incon.read statement by
     statement over Base/FixedFormat.v), instantiated with the record layouts regenerated
-    from t2incon_format_specification ([the_layouts]).  [wf] / [idem_hyp] are computable
-    booleans (Wf.v); their field-level conjuncts ([readback_ok]: the Fortran reader applied
-    to a formatted field returns the double nearest the value rounded to the printed
-    digits; [idem_ok]: formatting that double gives the same text) are NOT proved here:
-    theorems that assume them are named [_partial] and those conjuncts are evaluated on
-    every generated object by the extracted model and, on the implementation, by the
-    oracle. *)
+    from t2incon_format_specification ([the_layouts]).  [wf_fits] / [wfb_fits] (Fits.v) and
+    [idem_hyp] / [idemb] (Wf.v) are computable booleans.
+    - read (write i) = canon i is proved from [wf_fits] alone: structure + "every value
+      fits its field" (what a formatted field reads back as is proved in Fields.v).
+    - write (canon i) = write i additionally assumes, per field, that formatting the
+      canonical value reproduces the text ([idem_ok]: the 15-significant-digit round trip of
+      binary64), which is NOT proved here: those theorems are named [_partial]; the
+      hypothesis is evaluated on every generated object by the extracted model and the
+      byte-identity itself by the oracle on the implementation. *)
 From Coq Require Import Ascii String List Bool Arith ZArith NArith.
 From PTBase Require Import Exn PyStr PyNum PyVal Fmt FixedFormat.
 From Gen Require Import GenTables GenNames GenPad.
-From P Require Import Num Names InconIO Wf Lines Blocks RoundTrip Idem Bridge Current.
+From P Require Import Num Names InconIO Wf Lines Blocks RoundTrip Idem Bridge Fields Fits Current.
 Import ListNotations.
 
 (** finite obligation over the regenerated table: all seven record kinds present, field
@@ -32,19 +34,38 @@ Theorem record_line_reads_back : forall wspecs wextra rspecs1 rspecs2 vals rest,
 Proof. exact written_line_reads. Qed.
 Print Assumptions record_line_reads_back.
 
+(** what a formatted field reads back as (Fortran read functions applied to the writer's
+    text), for every field layout and every value that fits *)
+Theorem int_field_reads_back : forall f z s, ft f = Td -> (0 < fw f)%Z -> fmt_m f (MInt z) = Ok s -> readback_ok f (MInt z) = true.
+Proof. exact Fields.int_field_reads_back. Qed.
+Print Assumptions int_field_reads_back.
+Theorem real_field_reads_back : forall f ng m e s, ft f = Te -> (0 < fw f)%Z -> fmt_m f (MNum (PDy ng m e)) = Ok s ->
+  (forall q, used_prec f (XReal ng m e) = Some q -> (0 < q)%Z) -> readback_ok f (MNum (PDy ng m e)) = true.
+Proof. exact Fields.real_field_reads_back. Qed.
+Print Assumptions real_field_reads_back.
+Theorem absent_field_reads_back : forall f, ft f <> Ts -> readback_ok f MNone = true.
+Proof. exact none_field_reads_back. Qed.
+Print Assumptions absent_field_reads_back.
+Theorem name_field_reads_back : forall f s, ft f = Ts -> length s = width f -> no_trailing_newline s = true -> readback_ok f (MStr s) = true.
+Proof. exact str_field_reads_back. Qed.
+Print Assumptions name_field_reads_back.
+Theorem fit_implies_readback : forall L nv check reset i, wfb_fits L nv check reset i = true -> wfb L nv check reset i = true.
+Proof. exact wfb_fits_wfb. Qed.
+Print Assumptions fit_implies_readback.
+
 (** read (write i) = canon i: for every well-formed set -- any number of blocks, any
     number of variables (four per line), optional porosity / permeabilities / nseq-nadd,
     either flavour, timing kept or reset -- and for ANY layouts of the checked shape *)
-Theorem incon_read_write_any_layouts_partial : forall L nv check reset i,
-  layouts_ok L = true -> wfb L nv check reset i = true ->
+Theorem incon_read_write_any_layouts : forall L nv check reset i,
+  layouts_ok L = true -> wfb_fits L nv check reset i = true ->
   exists ls, write_L L reset i = Ok ls /\ read_L L nv check ls = Ok (canon_L L reset i).
-Proof. exact read_write_L. Qed.
-Print Assumptions incon_read_write_any_layouts_partial.
+Proof. exact read_write_fits_L. Qed.
+Print Assumptions incon_read_write_any_layouts.
 (** ... and with the layouts of the current source *)
-Theorem incon_read_write_partial : forall nv check reset i, wf nv check reset i = true ->
+Theorem incon_read_write : forall nv check reset i, wf_fits nv check reset i = true ->
   exists ls, write reset i = Ok ls /\ read nv check ls = Ok (canon reset i).
-Proof. exact read_write. Qed.
-Print Assumptions incon_read_write_partial.
+Proof. exact read_write_fits. Qed.
+Print Assumptions incon_read_write.
 
 (** what [canon] keeps: flavour, number and order of blocks, names through unfix-then-fix,
     nseq / nadd, presence of porosity, permeabilities exactly when the record has them,
@@ -80,25 +101,25 @@ Theorem incon_write_idem_any_layouts_partial : forall L reset i,
   write_L L reset (canon_L L reset i) = write_L L reset i.
 Proof. exact write_idem_L. Qed.
 Print Assumptions incon_write_idem_any_layouts_partial.
-Theorem incon_write_idem_partial : forall nv check reset i, wf nv check reset i = true -> idem_hyp reset i = true ->
+Theorem incon_write_idem_partial : forall nv check reset i, wf_fits nv check reset i = true -> idem_hyp reset i = true ->
   write reset (canon reset i) = write reset i.
-Proof. exact write_idem. Qed.
+Proof. exact write_idem_fits. Qed.
 Print Assumptions incon_write_idem_partial.
 (** the property statement: write, read back, write again -- the same lines *)
-Theorem incon_second_write_identical_partial : forall nv check reset i, wf nv check reset i = true -> idem_hyp reset i = true ->
+Theorem incon_second_write_identical_partial : forall nv check reset i, wf_fits nv check reset i = true -> idem_hyp reset i = true ->
   exists ls j, write reset i = Ok ls /\ read nv check ls = Ok j /\ write reset j = Ok ls.
-Proof. exact second_write_identical. Qed.
+Proof. exact second_write_identical_fits. Qed.
 Print Assumptions incon_second_write_identical_partial.
 
 (** the hypotheses are met (TOUGHREACT with permeabilities, 5 variables on 2 lines, a negative
     3-digit-exponent value, nseq/nadd, absent porosity, a digit-blank-digit name, timing kept;
     TOUGH2 without blocks; TOUGH2 with timing reset or kept, num_variables not given) *)
-Theorem hypotheses_satisfiable_toughreact : wf (Some 5) true false ex_tr = true /\ idem_hyp false ex_tr = true.
+Theorem hypotheses_satisfiable_toughreact : wf_fits (Some 5) true false ex_tr = true /\ idem_hyp false ex_tr = true.
 Proof. exact ex_tr_wf. Qed.
 Print Assumptions hypotheses_satisfiable_toughreact.
 Theorem hypotheses_satisfiable_tough2 :
-  wf None true true ex_empty = true /\ idem_hyp true ex_empty = true /\
-  wf None false true ex_t2 = true /\ idem_hyp true ex_t2 = true /\ wf (Some 1) false false ex_t2 = true.
+  wf_fits None true true ex_empty = true /\ idem_hyp true ex_empty = true /\
+  wf_fits None false true ex_t2 = true /\ idem_hyp true ex_t2 = true /\ wf_fits (Some 1) false false ex_t2 = true.
 Proof. exact ex_t2_wf. Qed.
 Print Assumptions hypotheses_satisfiable_tough2.
 
@@ -145,7 +166,7 @@ Theorem flavour_roundtrip_refuted :
 Proof. exact Current.flavour_roundtrip_refuted. Qed.
 Print Assumptions flavour_roundtrip_refuted.
 Theorem second_write_refuted :
-  exists i ls j ls2, wf (Some 2) true false i = true /\ write false i = Ok ls /\ read (Some 2) true ls = Ok j /\
+  exists i ls j ls2, wf_fits (Some 2) true false i = true /\ write false i = Ok ls /\ read (Some 2) true ls = Ok j /\
                      write false j = Ok ls2 /\ lines_eqb ls ls2 = false /\ lines_eqb (skipn 1 ls) (skipn 1 ls2) = true.
 Proof. exact Current.second_write_refuted. Qed.
 Print Assumptions second_write_refuted.
